@@ -314,6 +314,7 @@ def run(ck, m):
 
 
 MUTANTS = [
+    M("merge-early-returns", W, "UrwidImageScreen._ti_clear_images", "            if self._ti_image_cviews:\n                self.clear_images()\n                self._ti_image_cviews = frozenset()\n            return\n", "            return\n", {"R2"}),
     M("delete-after-draw", W, "UrwidImageScreen.draw_screen",
       "            if canvas is not self._ti_screen_canv:\n                self._ti_screen_canv = canvas\n                self._ti_clear_images()\n            return super().draw_screen(maxres, canvas)\n",
       "            ret = super().draw_screen(maxres, canvas)\n            if canvas is not self._ti_screen_canv:\n                self._ti_screen_canv = canvas\n                self._ti_clear_images()\n            return ret\n", {"R2"}),
